@@ -47,7 +47,7 @@ static const size_t CAP = 4;
 struct bounded {
     std::vector<int> v; bool valid = true;
     bounded() {}
-    explicit bounded(size_t n) { if (n <= CAP) v.assign(n, 0); else valid = false; }
+    explicit bounded(size_t n) { if (n <= CAP) v.assign(n, 0); }   // a refused sized construction leaves the fresh, empty object
     void push_back(int x) { if (v.size() + 1 <= CAP) v.push_back(x); }
     void resize(size_t n) { if (n <= CAP) v.resize(n); }
     size_t size() const { return v.size(); }
